@@ -62,6 +62,7 @@ class Gen:
         self.resolve_later(roots)
         # some programs use classes of their own derived from the library's
         self.objects['subclassed'] = rng.random() < 0.15
+        self.objects['cloned'] = not self.objects['subclassed'] and rng.random() < 0.12
         return {'objects': self.objects, 'roots': roots, 'start': start, 'till': None}
 
     def resolve_later(self, node):
